@@ -19,9 +19,15 @@ CONSTANTS NKeys,      \* key universe 0..NKeys-1
           NVals,
           Active,     \* sequence of the keys that are enumerated
           Fillers,    \* set of keys that are always present (shape the tree)
+          NestFill,   \* subset of Fillers created as nested buckets (with one pair inside); tx2
+                      \* begins by modifying each of them, so that a dirty sub-bucket hangs below
+                      \* leaves and branches that the per-key actions then merge or split
           Path,       \* path of the bucket under test, e.g. <<0>> or <<0, 3>>
-          PreKinds,   \* subset of {"absent", "kv", "bucket"}
-          Acts,       \* subset of {"keep", "put", "del", "mkb", "delb", "gocb"}
+          PreKinds,   \* subset of {"absent", "kv", "bucket", "nest"}
+          Acts,       \* subset of {"keep", "put", "del", "mkb", "delb", "gocb",
+                      \*            "delsub", "delsubdelb", "delbmkb", "delbput"}
+          Tails,      \* subset of {"none", "delpath", "delpathmk"}: after the per-key actions of
+                      \* tx2, delete the bucket under test itself (child, then ancestor) / recreate it
           Ends,       \* subset of {"commit", "drop", "reopen"}
           ReadBack,   \* BOOLEAN: full read API after every operation of tx2
           QKeys       \* set of keys: if non-empty, every seek / re-seek key and every pair of
@@ -51,11 +57,19 @@ FillSeq == SetToSortSeq(Fillers, LAMBDA x, y : x < y)
 MkChain(t) == [i \in 1..Len(Path) |-> Op(t, "mkb", SubSeq(Path, 1, i - 1), Path[i], 0)]
 PreOps(t, pr) ==
     MkChain(t)
-    \o [i \in 1..Len(FillSeq) |-> Op(t, "put", Path, FillSeq[i], FillSeq[i] % NVals)]
+    \o Flatten([i \in 1..Len(FillSeq) |->
+          IF FillSeq[i] \in NestFill
+          THEN <<Op(t, "mkb", Path, FillSeq[i], 0), Op(t, "put", Append(Path, FillSeq[i]), 0, 1)>>
+          ELSE <<Op(t, "put", Path, FillSeq[i], FillSeq[i] % NVals)>>])
     \o Flatten([i \in 1..N |->
           CASE pr[i] = "kv"     -> <<Op(t, "put", Path, Active[i], 0)>>
             [] pr[i] = "bucket" -> <<Op(t, "mkb", Path, Active[i], 0),
                                      Op(t, "put", Append(Path, Active[i]), 0, 1)>>
+            [] pr[i] = "nest"   -> <<Op(t, "mkb", Path, Active[i], 0),
+                                     Op(t, "put", Append(Path, Active[i]), 1, 1),
+                                     Op(t, "mkb", Append(Path, Active[i]), 0, 0),
+                                     Op(t, "put", Append(Append(Path, Active[i]), 0), 1, 2),
+                                     Op(t, "put", Append(Append(Path, Active[i]), 0), 2, 3)>>
             [] OTHER            -> <<>>])
 
 \* the read API on the bucket under test
@@ -95,6 +109,12 @@ ActOps(t, ac) ==
            [] ac[i] = "delb" -> <<Op(t, "delb", Path, Active[i], 0)>>
            [] ac[i] = "gocb" -> <<Op(t, "gocb", Path, Active[i], 0),
                                   Op(t, "put", Append(Path, Active[i]), 1, 2)>>
+           [] ac[i] = "delsub" -> <<Op(t, "delb", Append(Path, Active[i]), 0, 0)>>
+           [] ac[i] = "delsubdelb" -> <<Op(t, "delb", Append(Path, Active[i]), 0, 0),
+                                        Op(t, "delb", Path, Active[i], 0)>>
+           [] ac[i] = "delbmkb" -> <<Op(t, "delb", Path, Active[i], 0), Op(t, "mkb", Path, Active[i], 0),
+                                     Op(t, "put", Append(Path, Active[i]), 2, 1)>>
+           [] ac[i] = "delbput" -> <<Op(t, "delb", Path, Active[i], 0), Op(t, "put", Path, Active[i], 2)>>
            [] OTHER          -> <<>>)
         \o (IF ReadBack /\ ac[i] # "keep" THEN Reads(t) ELSE <<>>)])
 
@@ -109,9 +129,18 @@ ProjOps(t, tree) ==
 Begin_(t, w) == [a |-> "begin", t |-> t, w |-> w]
 End_(a, t)   == [a |-> a, t |-> t]
 
-Behaviour(pr, ac, end) ==
+TailOps(t, tl) ==
+    LET pp == SubSeq(Path, 1, Len(Path) - 1) IN
+    CASE tl = "delpath"   -> <<Op(t, "delb", pp, Path[Len(Path)], 0)>>
+      [] tl = "delpathmk" -> <<Op(t, "delb", pp, Path[Len(Path)], 0), Op(t, "mkb", pp, Path[Len(Path)], 0),
+                               Op(t, "put", Path, Active[1], 1)>>
+      [] OTHER -> <<>>
+
+Behaviour(pr, ac, end, tl) ==
     LET r1 == Run(EmptyTree, TRUE, PreOps(1, pr), <<>>)
-        r2 == Run(r1.tree, TRUE, ActOps(2, ac), <<>>)
+        nf == SetToSortSeq(NestFill, LAMBDA x, y : x < y)
+        touch == [i \in 1..Len(nf) |-> Op(2, "put", Append(Path, nf[i]), 1, 2)]
+        r2 == Run(r1.tree, TRUE, touch \o ActOps(2, ac) \o TailOps(2, tl), <<>>)
         final == IF end = "drop" THEN r1.tree ELSE r2.tree
         r3 == Run(final, FALSE, ProjOps(3, final), <<>>)
     IN  <<Begin_(1, TRUE)>> \o r1.steps \o <<End_("commit", 1), [a |-> "check"]>>
@@ -131,9 +160,9 @@ ChoosePre ==
 
 Emit ==
     /\ phase = 1
-    /\ \E ac \in [1..N -> Acts] : \E end \in Ends :
-          PrintT(ToJson([nk |-> NKeys, nv |-> NVals, pre |-> pre, act |-> ac, end |-> end,
-                         steps |-> Behaviour(pre, ac, end)]))
+    /\ \E ac \in [1..N -> Acts] : \E end \in Ends : \E tl \in Tails :
+          PrintT(ToJson([nk |-> NKeys, nv |-> NVals, pre |-> pre, act |-> ac, end |-> end, tail |-> tl,
+                         steps |-> Behaviour(pre, ac, end, tl)]))
     /\ phase' = 2 /\ pre' = <<>>
 
 GNext == ChoosePre \/ Emit
